@@ -18,6 +18,8 @@
            | (a r BLOCK CERT ok)               Authenticate was called
            | (v r BLOCK lat res)               Ledger.Validate was called
            | (w src r BLOCK CERT lat res validated cm au)   AddBlock/AddValidatedBlock was called
+           | (s lat)                           pipelinedFetch read firstRound = lat+1 (the pipeline starts here;
+                                               before it only somebody else can have written blocks)
            | (x)                               the service context was cancelled
            | (end k)                           pipelinedFetch returned
    Two comparisons with the model:
@@ -88,6 +90,7 @@ Inductive ievent :=
 | IValidate (r : N) (b : bdesc) (lat : N) (res : N)
 | IWrite (src : bool) (r : N) (b : bdesc) (c : cdesc) (lat : N) (res : N) (validated cm au : bool)
 | ICancel
+| IStart (lat : N)
 | IEnd (k : N).
 
 (* ---- parsing ---------------------------------------------------------------------------- *)
@@ -147,6 +150,7 @@ Definition p_event (t : term) : option ievent :=
       | _, _, _, _ => None
       end
   | TL [TS "x"] => Some ICancel
+  | TL [TS "s"; l] => match as_N l with Some l => Some (IStart l) | None => None end
   | TL [TS "end"; k] => match as_N k with Some k => Some (IEnd k) | None => None end
   | _ => None
   end.
@@ -323,6 +327,7 @@ Definition on_event (cfg : config) (dis : N) (fuel : nat) (st : mstate) (e : iev
   | IWrite false r b c lat res vd cm au =>
       if res =? 0 then obs_step cfg st (LExt b c) (EExt b c lat) else Some st
   | ICancel => mstep cfg st LCancel
+  | IStart _ => None              (* the pipeline starts once *)
   | IEnd _ => Some st
   end.
 
@@ -335,6 +340,19 @@ Fixpoint validate (cfg : config) (dis : N) (fuel : nat) (st : mstate) (es : list
               | Some st' => validate cfg dis fuel st' t (idx + 1)
               | None => inr idx
               end
+  end.
+
+(* events before the pipeline started: only writes by somebody else.  Returns the ledger's latest
+   round at the start and the remaining events. *)
+Fixpoint split_start (lat : N) (es : list ievent) : option (N * list ievent) :=
+  match es with
+  | IStart l :: t => if l =? lat then Some (lat, t) else None
+  | IWrite false r _ _ l res _ _ _ :: t =>
+      if l =? lat then
+        if res =? 0 then (if r =? lat + 1 then split_start (lat + 1) t else None)
+        else split_start lat t
+      else None
+  | _ => None
   end.
 
 (* ---- prediction under a canonical schedule -------------------------------------------------- *)
@@ -385,6 +403,64 @@ Definition is_bad_resp (rs : mresp) : bool :=
 
 Definition tids (l : list N) : term := TL (map tn l).
 
+(* ---- fetchRound cases -------------------------------------------------------------------------
+     (c30fr lat0 (cround cbid) (RESP ...) (EVENT ...) (final lat (id ...)))
+   one Service.syncCert call for a certificate of round [cround] committing to digest [cbid]; the
+   single goroutine is sequential, so the events are replayed one by one through [fr_step]. *)
+Definition fr_mstep (cround cbid : N) := @fr_step bdesc cdesc b_round cc_round b_cok b_id cround cbid.
+
+Fixpoint fr_validate (cround cbid : N) (st : @fr_state bdesc cdesc) (es : list ievent) : bool :=
+  match es with
+  | [] => match fr_p st with FRTop => false | _ => true end
+  | IFetch r p rs :: t =>
+      if negb (r =? cround) then false else
+      match fr_mstep cround cbid st (FRW (mkFRIn false (Some p) false rs)) with
+      | Some st1 =>
+          match fr_p st1 with
+          | FRFetch p' =>
+              if p' =? p then
+                match fr_mstep cround cbid st1 (FRW (mkFRIn false (Some p) false rs)) with
+                | Some st2 =>
+                    match fr_trace st2, t with
+                    | FREnsure b :: _, IWrite true r' b' c' lat res false _ _ :: t' =>
+                        (* EnsureBlock(block, cert) with the fetched block and AGREEMENT's certificate *)
+                        bdesc_eqb b b' && cdesc_eqb c' (mkC cround cbid true) && (r' =? cround)
+                        && (lat =? fr_latest st2) && fr_validate cround cbid st2 t'
+                    | FREnsure _ :: _, _ => false
+                    | _, _ => fr_validate cround cbid st2 t
+                    end
+                | None => false
+                end
+              else false
+          | _ => false
+          end
+      | None => false
+      end
+  | IEnd _ :: t => fr_validate cround cbid st t
+  | IStart _ :: t => fr_validate cround cbid st t
+  | _ => false
+  end.
+
+Definition check_fr (tlat0 tcert : term) (tscript tevents : list term) (tflat tfids : term) : term :=
+  match as_N tlat0, tcert, map_opt p_resp tscript, map_opt p_event tevents, as_N tflat, as_N_list tfids with
+  | Some lat0, TL [tcr; tcb], Some sc, Some es, Some flat, Some fids =>
+      match as_N tcr, as_N tcb with
+      | Some cround, Some cbid =>
+          let log := flat_map wlog_of es in
+          (* the property: in order, checked -- with NO configuration switch on this path -- and the
+             block written is the one the certificate commits to *)
+          let sok := spec_ok true true lat0 log flat fids
+                     && forallb (fun e => negb (wl_src e) || ((wl_id e =? cbid) && (wl_round e =? cround))) log in
+          let corr := fr_validate cround cbid (fr_init lat0) es
+                      && (flat =? (if lat0 + 1 =? cround then cround else lat0)) in
+          let nontriv := existsb (fun e => match e with IFetch _ _ rs => is_bad_resp rs | _ => false end) es
+                         && existsb (fun e => match e with IWrite true _ _ _ _ 0 _ _ _ => true | _ => false end) es in
+          verdict sok corr nontriv (TL [TS "model"; TS "fetchRound"])
+      | _, _ => v_parse
+      end
+  | _, _, _, _, _, _ => v_parse
+  end.
+
 (* ---- check -------------------------------------------------------------------------------- *)
 Definition check (t : term) : term :=
   match t with
@@ -398,11 +474,20 @@ Definition check (t : term) : term :=
           let sok := spec_ok (c_verify_payset cfg) (c_verify_cert cfg) lat0 log flat fids in
           let fuel := (2 * List.length es + 2 * N.to_nat (c_parallel cfg) + 64)%nat in
           let st0 : mstate := init lat0 in
-          let val := validate cfg dis fuel st0 es 0 in
+          let val := match split_start lat0 es with
+                     | Some (lat_s, es') =>
+                         match validate cfg dis fuel (init lat_s) es' 0 with
+                         | inl st => inl (st, lat_s)
+                         | inr i => inr (i + N.of_nat (List.length es - List.length es'))
+                         end
+                     | None => inr 0
+                     end in
           let pred := canon cfg dis sc (8 * (script_size sc + 12 * (N.to_nat (c_parallel cfg) + 4)))%nat st0 in
           let pred_ok := negb det || ((s_latest pred =? flat) && ids_eqb (written_ids (s_trace pred)) fids) in
           let val_ok := match val with
-                        | inl st => (s_latest st =? flat) && ids_eqb (written_ids (s_trace st)) fids
+                        | inl (st, lat_s) =>
+                            (s_latest st =? flat) &&
+                            ids_eqb (written_ids (s_trace st)) (skipn (N.to_nat (lat_s - lat0)) fids)
                         | inr _ => false
                         end in
           let mobs := TL [TS "model";
@@ -413,5 +498,7 @@ Definition check (t : term) : term :=
           verdict sok (val_ok && pred_ok) nontriv mobs
       | _, _, _, _, _, _, _ => v_parse
       end
+  | TL [TS "c30fr"; tlat0; tcert; TL tscript; TL tevents; TL [TS "final"; tflat; tfids]] =>
+      check_fr tlat0 tcert tscript tevents tflat tfids
   | _ => v_parse
   end.
